@@ -76,3 +76,87 @@ def register(reg):
     reg.add(DeepEqLeaf("block.py", "ByteBlock", "CodeBlock", as_super=True))
     reg.add(DeepEqLeaf("block.py", "CodeBlock", "CodeBlock"))
     reg.add(DeepEqLeaf("block.py", "ProxyBlock", "ProxyBlock"))
+
+
+# ------------------------------------------------------------------------------------------- Symbol and symbolic expressions
+from pyvc.core import is_VInt, is_VBool, is_VStr, is_VUuid      # noqa: E402
+
+
+def sym_typed(c, s):
+    p = c.get("__payload", s)
+    return z3.And(is_VStr(c.get("_name", s)), is_VBool(c.get("at_end", s)), is_VUuid(c.get("uuid", s)),
+                  z3.Or(is_VNone(p), is_VInt(p), z3.And(is_VRef(p), c.isinst(ref(p), "Block"))))
+
+
+def symbol_exact(c, x, o):
+    """Symbol.deep_eq(x, o): same value, referents deep_eq (or both absent), same name, at_end and UUID"""
+    y = ref(o)
+    vx, rx = D.payload_parts(c, x)
+    vy, ry = D.payload_parts(c, y)
+    refs = z3.If(is_VNone(rx), is_VNone(ry), D.DEQ(ref(rx), ry))
+    return z3.And(is_VRef(o), c.isinst(y, "Symbol"), vx == vy, refs, c.get("_name", x) == c.get("_name", y),
+                  c.get("at_end", x) == c.get("at_end", y), c.get("uuid", x) == c.get("uuid", y))
+
+
+class SymbolDeepEq(Contract):
+    target = "symbol.py::Symbol.deep_eq"
+    props = PROPS
+    params = {"self": "ref:Symbol", "other": "val"}
+    result = "bool"
+
+    def pre(self, c, a):
+        n = fresh("n", Int)
+        return {"symbols_typed": z3.ForAll([n], z3.Implies(c.isinst(n, "Symbol"), sym_typed(c, n))),
+                "is_symbol": c.isinst(a.self.t, "Symbol")}
+
+    def post(self, c0, c1, a, res):
+        return {"exact": res.t == symbol_exact(c0, a.self.t, to_val(a.other))}
+
+    def result_term(self, c0, a):
+        from pyvc.core import sv_bool
+        return sv_bool(D.DEQ(a.self.t, to_val(a.other)))
+
+
+def symexpr_exact(c, cls, x, o):
+    y = ref(o)
+    attrs = z3.Select(c.arr("SymExpr.attributes"), x) == z3.Select(c.arr("SymExpr.attributes"), y)
+    if cls == "SymAddrConst":
+        return z3.And(is_VRef(o), c.isinst(y, "SymAddrConst"), c.get("offset", x) == c.get("offset", y),
+                      D.DEQ(ref(c.get("symbol", x)), c.get("symbol", y)), attrs)
+    return z3.And(is_VRef(o), c.isinst(y, "SymAddrAddr"), c.get("scale", x) == c.get("scale", y),
+                  c.get("offset", x) == c.get("offset", y), D.DEQ(ref(c.get("symbol1", x)), c.get("symbol1", y)),
+                  D.DEQ(ref(c.get("symbol2", x)), c.get("symbol2", y)), attrs)
+
+
+class SymExprDeepEq(Contract):
+    props = PROPS
+    result = "bool"
+
+    def __init__(self, cls):
+        self.cls = cls
+        self.target = "symbolicexpression.py::%s.deep_eq" % cls
+        self.params = {"self": "ref:" + cls, "other": "val"}
+        super().__init__()
+
+    def pre(self, c, a):
+        n = fresh("n", Int)
+        isint = lambda v: z3.Or(is_VInt(v))
+        flds = ["symbol"] if self.cls == "SymAddrConst" else ["symbol1", "symbol2"]
+        nums = ["offset"] if self.cls == "SymAddrConst" else ["offset", "scale"]
+        return {"expressions_typed": z3.ForAll([n], z3.Implies(c.isinst(n, self.cls), z3.And(
+            [z3.And(is_VRef(c.get(f, n)), c.isinst(ref(c.get(f, n)), "Symbol")) for f in flds] + [isint(c.get(f, n)) for f in nums]))),
+                "symbols_typed": z3.ForAll([n], z3.Implies(c.isinst(n, "Symbol"), sym_typed(c, n))),
+                "is_expression": c.kind(a.self.t) == c.eng.schema.class_id(self.cls)}
+
+    def post(self, c0, c1, a, res):
+        return {"exact": res.t == symexpr_exact(c0, self.cls, a.self.t, to_val(a.other))}
+
+
+_reg_leaf = register
+
+
+def register(reg):      # noqa: F811
+    _reg_leaf(reg)
+    reg.add(SymbolDeepEq())
+    reg.add(SymExprDeepEq("SymAddrConst"))
+    reg.add(SymExprDeepEq("SymAddrAddr"))
